@@ -204,14 +204,17 @@ def judge_module(ck, c, classify_module):
     sql = a.get("ok", "") if isinstance(a, dict) else ""
     # the property's verdict
     visible = mc.where != "none"
-    if mc.site == "value":
+    if mc.site == "value-open":
+        # an open frame: an undeclared name is legitimately inferred as a column of the database table
+        must_reject = visible and mc.kind in ("table", "func", "module")
+    elif mc.site == "value":
         must_reject = (not visible) or mc.kind in ("table", "func", "module")
     else:
         must_reject = visible and mc.kind != "table"
     ck.stat(st, "%s:%s:%s:depth%d" % (mc.site, mc.kind if visible else "undeclared", mc.where, mc.depth))
     if mv is None:
         return
-    if mc.site == "value":
+    if mc.site in ("value", "value-open"):
         mk = outcome_kind(mv)
         model_rejects = mk.startswith("OErr")
     else:
@@ -232,15 +235,19 @@ def judge_module(ck, c, classify_module):
         else:
             ck.violation("ill-scoped program compiled: modules (the model says %s)" % mk, dict(rep, answer=sql[:300]))
         return
-    if impl_rejects and mc.site == "value":
+    if impl_rejects and mc.site in ("value", "value-open"):
         want = {"OErr:EUnknown": ("err:unknown",), "OErr:EAmbiguous": ("err:ambiguous",), "OErr:ENotAValue": ("err:expected", "err:not-a-value")}.get(mk)
         if want and c["impl"] not in want:
             ck.violation("modules: rejected, but not for the reason the model gives (%s vs %s)" % (c["impl"], mk), dict(rep, answer=str(a)[:300]))
             return
     if not impl_rejects:
-        if mc.site == "value":
-            if "4242" not in sql:
-                ck.violation("modules: the constant the model binds is not what was compiled", dict(rep, answer=sql[:300]))
+        if mc.site in ("value", "value-open"):
+            if ("4242" in sql) != (mk == "OValue"):
+                ck.violation("modules: the model says the reference is %s, the SQL says otherwise" % mk, dict(rep, answer=sql[:300]))
+                return
+            if mk == "OInferredColumn" and visible and mc.kind == "const":
+                ck.disagreement("a constant declared in an enclosing module is compiled as a column of the database table (inferred): compiled to something else",
+                                dict(rep, answer=sql[:300]), classify_module)
                 return
         else:
             uses_decl = "zsrc" in sql
@@ -252,7 +259,7 @@ def judge_module(ck, c, classify_module):
     if must_reject and not impl_rejects:
         ck.disagreement("ill-scoped program compiled: a name declared in an enclosing module as a %s stands where a relation is required and is read as a database table" % mc.kind,
                         dict(rep, answer=sql[:300]), classify_module)
-    elif not must_reject and not impl_rejects and mc.site != "value" and visible and "zsrc" not in sql:
+    elif not must_reject and not impl_rejects and mc.site not in ("value", "value-open") and visible and "zsrc" not in sql:
         ck.disagreement("a relation declared in an enclosing module is compiled to a database table of the same name",
                         dict(rep, answer=sql[:300]), classify_module)
     elif not must_reject and impl_rejects:
@@ -474,7 +481,7 @@ def run():
     for mc in c10_gen.module_cases(g, ck.n(140, 900)):
         ms = mc.coq_ms()
         idn = "([], %s)" % cs(mc.n)
-        if mc.site == "value":
+        if mc.site in ("value", "value-open"):
             coq = "lower_ref_m head_cfg %s %s" % (ms, idn)
         else:
             args = {"from": "[k]", "join": "[k; AScalar; ARel]", "append": "[k; ARel]"}[mc.site]
@@ -482,6 +489,32 @@ def run():
                    "match rel_enclosing head_cfg (ms_mods ms) (shadowed (ms_scope ms)) (ms_cur ms) %s with Some _ => true | None => "
                    "match mlookup (ms_mods ms) (shadowed (ms_scope ms)) %s with [] => false | _ => true end end)") % (ms, idn, cs(mc.site), args, idn, idn)
         cases.append({"stream": "modules", "src": mc.text(), "kind": "module", "pi": None, "coq": coq, "mc": mc, "site": mc.site})
+
+    # (i) type names: an annotation `<T>` of an inline lambda at the final frame of the program.  T is a type, a declaration
+    #     that is not a type, an undeclared name, or a COLUMN / input of the frame (bare, this.col, alias.col) -- the model
+    #     (type_ref: this / that shadowed) says columns are never types and a column spelled like a type does not capture it
+    for pi, p in enumerate(progs):
+        fr = p.frames[-1]
+        a = g.num_ref(fr)
+        if a is None:
+            continue
+        p2 = type("P", (), {"root": list(p.root) + c10_gen.TYPE_ROOT})()
+        decls = "\n".join(c10_gen.TYPE_DECLS)
+        colrefs = [(t_, i_, "column") for t_, i_, e_ in g.refs(fr) if e_[0] != "infer"]
+        colrefs += [("this." + t_, (["this"] + list(i_[0]), i_[1]), "column") for t_, i_, _ in colrefs[:3]]
+        for _ in range(2):
+            txt, ident, what = g.pick(c10_gen.TYPE_NAMES + colrefs[:6])
+            extra = []
+            src_p = p
+            if what in ("primitive-keyword", "user-type") and g.chance(0.5) and not ident[0]:
+                # a column spelled like the type, in scope where the annotation stands
+                extra = ["derive {%s = 1}" % txt]
+            fr2 = fr.copy()
+            if extra:
+                fr2.direct.append(txt)
+            cases.append({"stream": "type-names", "src": decls + "\n" + p.text(extra=extra + ["derive {zz = (func zp9 <%s> -> zp9 + 1) %s}" % (txt, a[0])]),
+                          "kind": "type", "pi": pi, "coq": "TOk" if what == "primitive-keyword" else "type_ref %s %s" % (coq_scope(p2, fr2), coq_ident(ident)),
+                          "name": txt, "what": what + ("+column-of-that-name" if extra else ""), "frame": fr2.describe()})
 
     # (h) the std signature table, EVERY entry (not sampled): one argument too many, an unknown named argument, and -- so
     #     that the table cannot err on the other side -- exactly the declared positional arguments, and each declared named one
@@ -538,7 +571,7 @@ def run():
             base_ok[c["pi"]] = c["impl"] == "ok"
 
     # ------------------------------------------------------------------ the lowerer's trace of every case (hook lowerer-op-trace)
-    traced = [c for c in cases if c["stream"] in ("well-scoped", "edit-a-dropped-column", "edit-b-ambiguous-name", "edit-f-module-or-relation-as-value", "modules")
+    traced = [c for c in cases if c["stream"] in ("well-scoped", "edit-a-dropped-column", "edit-b-ambiguous-name", "edit-f-module-or-relation-as-value", "modules", "type-names")
               or c["stream"] == "edit-e-scalar-for-relation"]
     tr = harness("log", [{"src": c["src"], "target": "sql.sqlite", "want": [], "msg_prefix": HOOK} for c in traced])
     hook_lines = 0
@@ -594,6 +627,24 @@ def run():
             continue
         if c["kind"] == "module":
             judge_module(ck, c, classify_module)
+            continue
+        if c["kind"] == "type":
+            if not base_ok.get(c["pi"], False):
+                ck.stat(st, "skipped:base-program-rejected")
+                continue
+            ck.count(st, key)
+            mv = c.get("model")
+            mk = mv if isinstance(mv, str) else ("TErr:" + mv[1] if mv else None)
+            ck.stat(st, "%s:model:%s:impl:%s" % (c["what"], mk, c["impl"]))
+            rep = dict(rep, model=str(mv), answer=str(a)[:300])
+            rs = " | ".join(e.get("reason", "") for e in a.get("err", [])) if isinstance(a, dict) else ""
+            good = (mk == "TOk" and c["impl"] == "ok") or (mk == "TErr:EUnknown" and c["impl"] == "err:unknown") or \
+                   (mk == "TErr:EAmbiguous" and c["impl"] == "err:ambiguous") or (mk == "TErr:ENotAType" and "expected a type" in rs)
+            if mk is not None and not good:
+                if c["impl"] == "ok":
+                    ck.disagreement("ill-scoped program compiled: the type annotation `%s` is not a type (model %s)" % (c["name"], mk), rep, None)
+                else:
+                    ck.violation("type-names: model %s, implementation %s" % (mk, c["impl"]), rep)
             continue
         if c["kind"] == "std":
             ck.count(st, key)
